@@ -22,8 +22,31 @@ pub trait MNode: BufMut {
     fn set_limit(&mut self, _n: usize) -> bool {
         false
     }
+    /// the write ops with `Self` = the concrete type, so that the type's own overrides of
+    /// put_slice / put_bytes / put_X are the ones that run (`Box<dyn BufMut>` only forwards some)
+    fn write_op(&mut self, op: &WOp) -> Option<()>;
 }
 pub type MN = Box<dyn MNode>;
+
+pub enum WOp<'a> {
+    Slice(&'a [u8]),
+    Bytes(u8, usize),
+    Put(&'a str, &'a str, usize),
+}
+
+fn write_op_on<T: BufMut + ?Sized>(t: &mut T, op: &WOp) -> Option<()> {
+    match op {
+        WOp::Slice(b) => {
+            t.put_slice(b);
+            Some(())
+        }
+        WOp::Bytes(v, c) => {
+            t.put_bytes(*v, *c);
+            Some(())
+        }
+        WOp::Put(name, val, nb) => call_putter(t, name, val, *nb),
+    }
+}
 
 #[macro_export]
 macro_rules! for_all_putters {
@@ -79,6 +102,9 @@ impl MNode for VecNode {
     fn describe(&self) -> String {
         format!("grow vec {} {} {}", hex(&self.0[..self.1]), hex(&self.0[self.1..]), self.0.capacity() - self.0.len())
     }
+    fn write_op(&mut self, op: &WOp) -> Option<()> {
+        write_op_on(&mut self.0, op)
+    }
     fn put_buf(&mut self, src: tree::N) {
         BufMut::put(&mut self.0, src)
     }
@@ -89,6 +115,9 @@ delegate_bufmut!(BmNode);
 impl MNode for BmNode {
     fn describe(&self) -> String {
         format!("grow bmut {} {} {}", hex(&self.0[..self.1]), hex(&self.0[self.1..]), self.0.capacity() - self.0.len())
+    }
+    fn write_op(&mut self, op: &WOp) -> Option<()> {
+        write_op_on(&mut self.0, op)
     }
     fn put_buf(&mut self, src: tree::N) {
         BufMut::put(&mut self.0, src)
@@ -116,6 +145,9 @@ impl MNode for SliceNode {
     fn guards_ok(&self) -> bool {
         fixed_state("slice", self.1, self.2, self.0.len()).1
     }
+    fn write_op(&mut self, op: &WOp) -> Option<()> {
+        write_op_on(&mut self.0, op)
+    }
     fn put_buf(&mut self, src: tree::N) {
         BufMut::put(&mut self.0, src)
     }
@@ -129,6 +161,9 @@ impl MNode for UninitNode {
     }
     fn guards_ok(&self) -> bool {
         fixed_state("uninit", self.1, self.2, self.0.len()).1
+    }
+    fn write_op(&mut self, op: &WOp) -> Option<()> {
+        write_op_on(&mut self.0, op)
     }
     fn put_buf(&mut self, src: tree::N) {
         BufMut::put(&mut self.0, src)
@@ -150,6 +185,9 @@ impl MNode for Chain<MN, MN> {
     fn guards_ok(&self) -> bool {
         self.first_ref().guards_ok() && self.last_ref().guards_ok()
     }
+    fn write_op(&mut self, op: &WOp) -> Option<()> {
+        write_op_on(self, op)
+    }
     fn put_buf(&mut self, src: tree::N) {
         BufMut::put(self, src)
     }
@@ -160,6 +198,9 @@ impl MNode for Limit<MN> {
     }
     fn guards_ok(&self) -> bool {
         self.get_ref().guards_ok()
+    }
+    fn write_op(&mut self, op: &WOp) -> Option<()> {
+        write_op_on(self, op)
     }
     fn put_buf(&mut self, src: tree::N) {
         BufMut::put(self, src)
@@ -180,6 +221,9 @@ impl MNode for RefMutM {
     fn guards_ok(&self) -> bool {
         self.0.guards_ok()
     }
+    fn write_op(&mut self, op: &WOp) -> Option<()> {
+        write_op_on(&mut self.0, op)
+    }
     fn put_buf(&mut self, src: tree::N) {
         BufMut::put(&mut self.0, src)
     }
@@ -193,6 +237,9 @@ impl MNode for BoxedM {
     }
     fn guards_ok(&self) -> bool {
         self.0.guards_ok()
+    }
+    fn write_op(&mut self, op: &WOp) -> Option<()> {
+        write_op_on(&mut self.0, op)
     }
     fn put_buf(&mut self, src: tree::N) {
         BufMut::put(&mut self.0, src)
@@ -262,7 +309,7 @@ impl FromJudge for f64 {
 
 macro_rules! put_dispatch {
     (fixed: $(($p:ident, $ty:ty)),* ; var: $(($vp:ident, $vty:ty)),*) => {
-        fn call_putter(t: &mut MN, name: &str, val: &str, nbytes: usize) -> Option<()> {
+        fn call_putter<T: BufMut + ?Sized>(t: &mut T, name: &str, val: &str, nbytes: usize) -> Option<()> {
             $( if name == stringify!($p) { t.$p(<$ty as FromJudge>::parse(val)?); return Some(()); } )*
             $( if name == stringify!($vp) { t.$vp(<$vty as FromJudge>::parse(val)?, nbytes); return Some(()); } )*
             None
@@ -279,11 +326,11 @@ fn exec(t: &mut MN, op: &[&str]) -> Option<String> {
         "remmut" => t.remaining_mut().to_string(),
         "chunkmut" => t.chunk_mut().len().to_string(),
         "putslice" => {
-            t.put_slice(&unhex(op.get(1)?)?);
+            t.write_op(&WOp::Slice(&unhex(op.get(1)?)?))?;
             "ok".into()
         }
         "putbytes" => {
-            t.put_bytes(num(1)? as u8, num(2)?);
+            t.write_op(&WOp::Bytes(num(1)? as u8, num(2)?))?;
             "ok".into()
         }
         "putbuf" => {
@@ -294,7 +341,7 @@ fn exec(t: &mut MN, op: &[&str]) -> Option<String> {
         }
         "put" => {
             let nb = op.get(3).and_then(|s| s.parse().ok()).unwrap_or(0);
-            call_putter(t, op.get(1)?, op.get(2)?, nb)?;
+            t.write_op(&WOp::Put(op.get(1)?, op.get(2)?, nb))?;
             "ok".into()
         }
         "write" => {
